@@ -283,11 +283,11 @@ PROPS = {
         "asserts": ["C09.", "uncaught-panic"],
         "harnesses": [
             {"id": "averages", "func": "VerifAverages", "pkg": NODE, "pkgname": "node", "load": ["./node"],
-             "params": {"quick": {"period": 3, "heights": 6}, "thorough": {"period": 4, "heights": 9}},
-             "must_cover": ["three-or-more-rated", "few-rated"], "max_witness_replays": 6},
+             "params": {"quick": {"period": 3, "heights": 6, "gap": 1}, "thorough": {"period": 4, "heights": 9, "gap": 1}},
+             "must_cover": ["three-or-more-rated", "few-rated", "asset-unquoted-for-a-stretch"], "max_witness_replays": 6},
             RESTARTCHAIN,
         ],
-        "bounds": {"quick": "averaging period P=3 (package variable; the code is uniform in P, mainnet uses 288), chain of 6 heights (starting at height 1, or straddling the PIP-10 activation height) with every rated/unrated pattern, 2 assets (one appearing later), rates symbolic in [1, 2^40]; a restarted daemon is compared at EVERY rated block (so every set of restart heights); plus a 3-block chain with content (graded / ungraded with entries / graded) synced through the real SyncBlock by one daemon and by daemons restarted at any subset of the block boundaries",
+        "bounds": {"quick": "averaging period P=3 (package variable; the code is uniform in P, mainnet uses 288), chain of 6 heights (starting at height 1, or straddling the PIP-10 activation height) with every rated/unrated pattern, 2 assets (one appearing later, or quoted from the start and then left out of the rates of 1-2 consecutive heights), rates symbolic in [1, 2^40]; a restarted daemon is compared at EVERY rated block (so every set of restart heights); plus a 3-block chain with content (graded / ungraded with entries / graded) synced through the real SyncBlock by one daemon and by daemons restarted at any subset of the block boundaries",
                    "thorough": "P=4, 9 heights"},
         "assumptions": ["all other consensus inputs are read from the database (checked by reading SyncBlock: rates, holding, balances, bank, snapshots go through SQL); the rolling-average cache is the only in-memory state that influences results",
                         "rates are non-zero (a recorded 0 counts as missing in both paths alike)"],
